@@ -5,9 +5,9 @@ import Revm.Model.Interp
 
 * `begin interp <spec> <gas> <static> <code> <input> <target> <caller> <value> <env>` → `ok len=<code buffer len> pc=0`
   `<env>` = `chainid,coinbase,timestamp,number,difficulty,prevrandao|-,gaslimit,basefee,gasprice,prio|-,origin,h1+h2..|-,blobgasprice|-,limit|-` (hex)
-* `i s <resp>` one instruction; `<resp>` = `-` or `ok:word:bytes:cold:orig:pres:new:flags:deleg` (the scripted host answer)
-* `i ret <result>:<gas remaining>:<refunded>:<output>:<address|->` re-entry of a child result after an action
-* `i dump` full digests
+* `i s <tag> <resp>` one instruction (`<tag>` = case.step, ignored); `<resp>` = `-` or `ok:word:bytes:cold:orig:pres:new:flags:deleg` (the scripted host answer)
+* `i ret <tag> <result>:<gas remaining>:<refunded>:<output>:<address|->` re-entry of a child result after an action
+* `i dump <tag>` full digests
   reply of `s`/`ret`: `pc= r= g= rf= n= top= sd= ms= md= rd=` [` h=<host call>`] [` act=<action>`] [` out=<len>:<digest>`],
   `panic` for a modelled Rust panic, `oob-code|oob-stack|oob-memory` for a modelled out-of-buffer access
 * `interp run <spec> <gas> <static> <code> <input> <target> <caller> <value> <env> <hostq> <childq> <keccakq>`
@@ -151,7 +151,7 @@ def begin (toks : List String) : St × String :=
 
 def handle (st : St) (toks : List String) : St × String :=
   match toks, st.s with
-  | ["s", resp], some s =>
+  | ["s", _tag, resp], some s =>
     if st.pending.isSome then (st, "bad-op") else
     match parseResp resp with
     | none => (st, "bad-op")
@@ -160,7 +160,7 @@ def handle (st : St) (toks : List String) : St × String :=
       | .pure d => doneReply d ""
       | .host op k =>
         doneReply (k r) (match hostStr op with | some h => s!" h={h}" | none => "")
-  | ["ret", child], some s =>
+  | ["ret", _tag, child], some s =>
     match st.pending, parseChild child with
     | some a, some c =>
       (match insertOutcome a c s with
@@ -168,7 +168,7 @@ def handle (st : St) (toks : List String) : St × String :=
        | .halt r _ s' => ({ s := some s' }, stateStr r s')
        | .fault f => ({}, faultReply f))
     | _, _ => (st, "bad-op")
-  | ["dump"], some s =>
+  | ["dump", _tag], some s =>
     (st, s!"stack={toHex (digestWords s.stack)} mem={lenDig (ctxOf s)} rd={lenDig s.returnData}")
   | _, _ => (st, "bad-op")
 
